@@ -144,6 +144,9 @@ SlotCases ==
 
 \* forests used by the writer round trips only (C01, C04, ...)
 NestedLong == <<
+        \* a scalar of more than 64 KiB READ (not skipped) inside a container, followed by siblings and top-level values
+        <<Val("list", <<>>, <<Val("string", <<>>, Rep(122, 72000)), IntOne>>), IntOne, IntOne>>,
+        <<Val("struct", <<>>, << [name |-> TextTok(<<97>>), val |-> Val("blob", <<>>, Rep(7, 66000))], [name |-> TextTok(<<98>>), val |-> IntOne] >>), IntOne>>,
         \* a CHILD container whose content crosses the 2-byte / 3-byte length boundary (16383, 16384 bytes and more),
         \* inside a parent, annotated, and as a struct field, followed by another value
         <<Val("list", <<>>, <<Val("list", <<>>, <<Val("string", <<>>, Rep(122, 16380))>>), IntOne>>), IntOne>>,
